@@ -66,15 +66,28 @@ CdfTolE9 == 3
 (* units of 1/scale (pdf) resp. scale (icdf)                                               *)
 RelTolE12 == 10000
 AbsTolE12 == 1000
-(* icdf: G(p) is accepted if the documented cdf brackets p on G(p) -+ 1e-8 relative, where  *)
-(* p itself is taken up to 1e-12 absolute: a double carries p = 1 - 1e-9 only to 1e-7        *)
-(* relative in 1 - p, and the special functions behind cdf are accurate to ~1e-13 ABSOLUTE   *)
-(* (von Mises series: measured 9e-15 at kappa = 9, 2e-13 at kappa = 40), which moves a 1e-9  *)
-(* quantile by 1e-6.  Any parameter-mapping error changes tail probabilities by orders of    *)
-(* magnitude.                                                                                *)
+(* icdf: G(p) is accepted if the documented cdf brackets p on [G(p) - d, G(p) + d] with     *)
+(*    d = 1e-8 * dist + 8 ulp,  dist = distance of G(p) from the nearest finite boundary of   *)
+(*    the support (max(|G|, inter-quartile range) for the normal distribution)                 *)
+(* i.e. 1e-8 RELATIVE to the distance from the boundary - for a support starting at 0 this is  *)
+(* the relative error of the quantile itself, also where the quantile is 1e-20 of the scale    *)
+(* (small second shape of the exponentiated Weibull, far lower tail).                          *)
+(* Body, 1e-6 <= p <= 1 - 1e-6: p itself is taken up to 1e-12 absolute (<= 1e-6 relative):     *)
+(* the special functions behind cdf are accurate to ~1e-13 ABSOLUTE (von Mises series:         *)
+(* measured 9e-15 at kappa = 9, 2e-13 at kappa = 40).                                          *)
 IcdfPTolE15 == 1000
-(* round trips: 1e-7 relative, for probabilities in [1e-6, 1 - 1e-6]: the inversion of    *)
-(* F near 0/1 amplifies the 1.1e-16 spacing of doubles near 1 by 1/(1-p)                   *)
+(* Far tails, p < 1e-6 or p > 1 - 1e-6: p is taken up to 16 ulp of p only (what a double can   *)
+(* carry: p = 1e-16 exactly, p = 1 - 1e-9 to 1e-7 relative in 1 - p); a quantile function that *)
+(* forms 1 - p^(1/delta) or log(1 - q) without log1p/expm1 loses all digits there.  The same  *)
+(* 16 ulp of p are allowed in the far-tail round trip F(G(p)) = p (measured on the unchanged    *)
+(* tree: 7 ulp for the exponentiated Weibull with delta = 25 at p = 1 - 1e-12, where rounding    *)
+(* p^(1/delta) to a double alone moves p by delta/2 ulp).                                        *)
+IcdfPUlps == 16
+(* round trips: 1e-7 relative - F(G(p)) - p relative to min(p, 1-p) for every tabulated p    *)
+(* from 1e-16 to 1 - 1e-12, G(F(x)) - x relative to the distance of x from the nearest finite  *)
+(* support boundary (down to x = boundary + 1e-9 inter-quartile ranges) - in excess of the     *)
+(* representation error of the intermediate double (8 ulp of G(p) times the pdf + 4 ulp of p,  *)
+(* resp. 8 ulp of F(x) over the pdf + 8 ulp of x)                                              *)
 RoundTripTolE12 == 100000
 (* scalar / list / ndarray: same elementwise operations; 1e-13 relative allows a last-bit *)
 (* difference between SIMD and scalar loops of exp/log/pow                                 *)
@@ -109,5 +122,27 @@ QuickSel(fam, cl) ==
 LawClasses(fam, tier) ==
     IF tier = "quick" THEN {cl \in AllClasses(fam) : QuickSel(fam, cl)} ELSE AllClasses(fam)
 LawCases(tier) == UNION {{<<fam, cl>> : cl \in LawClasses(fam, tier)} : fam \in LawFamilies}
+
+(* extreme-but-admissible values of one slot (the other slots at class 1, another shape slot  *)
+(* of the family at every class 0 / 1 / 2):                                                  *)
+(*   shape-like slot  level 1..4:  0.1, 0.3, 0.5, 25  (log-normal sigma 0.05, 0.1, 0.3, 4;     *)
+(*                    von Mises kappa 0.05, 0.1, 0.3, 45; norm-fit ratio 0.05, 0.1, 0.3, 5)     *)
+(*   scale-like slot  level 1..2:  1e-8, 1e8                                                   *)
+ShapeSlots(fam) == CASE fam \in {"ExpWeibull", "GenGamma"} -> {1, 3}
+                     [] fam = "ScipyBeta" -> {1, 4}
+                     [] fam \in {"Weibull", "LogNormal", "VonMises", "NormFit", "ScipyGamma"} -> {1}
+                     [] OTHER -> {}
+ScaleSlots(fam) == CASE fam \in {"Normal", "ScipyRayleigh"} -> {1}
+                     [] fam = "VonMises" -> {}
+                     [] OTHER -> {2}
+ExtLevels(fam, slot) == IF slot \in ShapeSlots(fam) THEN 1..4 ELSE 1..2
+ExtBases(fam, slot) ==
+    {cl \in AllClasses(fam) :
+        \A k \in 1..NSlots(fam) :
+           (k = slot \/ k \notin ShapeSlots(fam) \/ slot \notin ShapeSlots(fam)) => cl[k] = 1}
+ExtremeCasesOf(fam) ==
+    UNION {{<<fam, cl, <<slot, lev>> >> : cl \in ExtBases(fam, slot), lev \in ExtLevels(fam, slot)} :
+             slot \in ShapeSlots(fam) \cup ScaleSlots(fam)}
+ExtremeCases == UNION {ExtremeCasesOf(fam) : fam \in LawFamilies}
 
 =============================================================================
